@@ -4,7 +4,7 @@ from . import _secp as S
 ID = "C05"
 EXTRA_TARGETS = ["Proofs/EcdsaRefine.vo", "Proofs/EcdsaAbstractInst.vo"]
 LEVEL = "partial"
-RULE = ("every public function of src/ecdsa/*.rs, PrivateKey::sign_message, Signature::verify_message, PublicKey::verify_message / "
+RULE = ("CROSS PRODUCT every way a signature is produced (deterministic x hash x reverse_k, sign_message, caller nonce x hash, digest signing x hash, randomised x hash x reverse_k: 13 ways) x every verification entry point (ECDSA::verify_digest, verify_hashbuf, Signature::verify_message, PublicKey::verify_message, is_valid_message) with the other-hash clause for every pair and same / other message / other key rotating (all four in the thorough tier); every public function of src/ecdsa/*.rs, PrivateKey::sign_message, Signature::verify_message, PublicKey::verify_message / "
         "is_valid_message and the r/s accessors is reached by some op; every hash x reverse_k x signing entry point on the empty and "
         "the one-byte message; messages in all length bands up to 1000; signer / nonce-key compression markers in all four "
         "combinations; signature objects with and without recovery info through the verifier; private_key_from_signature_k for small "
@@ -66,6 +66,49 @@ LZ_DIGEST_MSG, LZ_DIGEST_MSG_D, LZ_RK_MSG = b"lz372", b"lz637", b"lz135"
 
 def lzb(v):
     return (256 - v.bit_length()) // 8
+
+
+WAYS = [("det", "sha256", 0), ("det", "sha256", 1), ("det", "sha256d", 0), ("det", "sha256d", 1), ("msg", "sha256", 0),
+        ("k", "sha256", 0), ("k", "sha256d", 1), ("dig", "sha256", 0), ("dig", "sha256d", 0),
+        ("rnd", "sha256", 0), ("rnd", "sha256", 1), ("rnd", "sha256d", 0), ("rnd", "sha256d", 1)]
+VERIFIERS = ["vd", "vh", "sm", "pm", "pv"]
+
+
+def way_aux(rng, signer):
+    if signer == "k":
+        return S.h32(rkey(rng))
+    if signer == "rnd":
+        return "l:%d:32" % rng.randrange(1, 2 ** 31)
+    return "00"
+
+
+def cross_cases(A, rng, thorough):
+    """every way a signature is produced x every verification entry point x {other hash choice, same, other message, other key}
+    (quick tier: the other-hash clause for every pair, the remaining clauses rotating over the pairs)"""
+    H = S.h32
+    other = lambda h: "sha256d" if h == "sha256" else "sha256"
+    idx = 0
+    for (signer, h, rk) in WAYS:
+        for vf in VERIFIERS:
+            d = rkey(rng) if idx % 3 else rng.choice(KEYS)
+            c, c2 = idx % 2, (idx // 2) % 2
+            m = ["", "00", bytes(rng.randrange(256) for _ in range(rng.randrange(1, 70))).hex()][idx % 3] if idx % 5 == 0 else \
+                bytes(rng.randrange(256) for _ in range(rng.randrange(1, 70))).hex()
+            base = [signer, H(d), c, m, h, rk, way_aux(rng, signer), vf]
+            clauses = {
+                "hash": [H(d), c2, m, other(h)],          # for sm/pm/pv the hash argument is ignored: they are SHA-256 verifiers,
+                                                          # so on a signature over the double hash THIS is the other-hash case
+                "same": [H(d), c2, m, h],
+                "msg": [H(d), c2, m + "01", h],
+                "key": [H(N - d if idx % 2 else rkey(rng)), c2, m, h],
+            }
+            pick = ["hash"] + (["same", "msg", "key"] if thorough else ([["same", "msg", "key"][(idx // 2) % 3]] if idx % 2 == 0 else []))
+            for cl in pick:
+                A("ecdsa.cross", base + clauses[cl])
+            idx += 1
+    A("ecdsa.cross", ["det", H(0), 1, "00", "sha256", 0, "00", "vd", H(5), 1, "00", "sha256"])
+    A("ecdsa.cross", ["k", H(5), 1, "00", "sha256", 0, H(0), "sm", H(5), 1, "00", "sha256"])
+    A("ecdsa.cross", ["det", H(5), 1, "00", "sha256", 0, "00", "pv", H(N), 1, "00", "sha256"])
 
 
 def audit_cases(A, rng, thorough):
@@ -233,8 +276,8 @@ def generate(rng, tier):
     A("ecdsa.sign_det", [S.h32(1), 1, b"Satoshi Nakamoto".hex(), "sha256", 0])
     A("ecdsa.sign_det", [S.h32(N - 1), 1, b"Satoshi Nakamoto".hex(), "sha256", 0])
     A("ecdsa.sign_det", ["f8b8af8ce3c7cca5e300d33939540c10d45ce001b8f252bfbc57ba0342904181", 0, b"Alan Turing".hex(), "sha256", 0])
-    for d in KEYS:
-        for h in HASHES:
+    for j, d in enumerate(KEYS):
+        for h in (HASHES if thorough else [HASHES[j % 2]]):
             rk = rng.randrange(2)
             A("ecdsa.sign_det", [S.h32(d), rng.randrange(2), msg_descr(rng)[0], h, rk])
     for j, n in enumerate([0, 55, 56, 64, 200] + ([1, 63, 65, 119, 120, 127, 128, 1000] if thorough else [])):
@@ -281,12 +324,12 @@ def generate(rng, tier):
     A("ecdsa.sign_random", [BADKEYS[1], 1, "00", "sha256", 0, "r:00:32"])
 
     # ---------------------------------------------------------------- sign, then verify with the same / another key, message, hash
-    for _ in range(5 if not thorough else 100):
+    for _ in range(2 if not thorough else 100):
         d = keypool()
         m, _b = msg_descr(rng)
         h = rng.choice(HASHES)
         A("ecdsa.sign_verify", [S.h32(d), rng.randrange(2), m, h, rng.randrange(2), S.h32(d), rng.randrange(2), m, h])
-    for _ in range(6 if not thorough else 80):
+    for _ in range(3 if not thorough else 80):
         d = keypool()
         m, mb = msg_descr(rng, rng.randrange(1, 60))
         h = rng.choice(HASHES)
@@ -355,6 +398,7 @@ def generate(rng, tier):
     # ---------------------------------------------------------------- leading zero bytes, digests >= n
     leading_zero_cases(A, rng, thorough)
     audit_cases(A, rng, thorough)
+    cross_cases(A, rng, thorough)
 
     # ---------------------------------------------------------------- ECDH
     for (a, b) in [(1, 1), (1, 2), (2, N - 1), (N - 1, N - 1), (N - 2, 3), (2 ** 255, N // 2)]:
